@@ -1344,6 +1344,11 @@ def rule_r5(chk, prog):
         pass
     stores = [s for s in ast.walk(f) if isinstance(s, ast.Assign)
               and unparse(s.targets[0]).startswith('__sort_lookup[')]
+    if not stores:
+        raise AnalysisError(
+            'C16.R5: smtlib.collect_information does not store into '
+            '__sort_lookup itself any more (the table construction moved): '
+            'the rule cannot find the declaration forms')
     seen = {}
     for s in stores:
         facts = facts_at(f, s.value)
@@ -1600,8 +1605,25 @@ def rule_r6(chk, prog):
     MUT = ('append', 'extend', 'add', 'update', 'clear', 'pop', 'remove',
            'discard', 'insert', 'setdefault', 'popitem', 'sort')
 
+    def import_time_only(q_):
+        """the function is called at module level only (a registration
+        helper that fills a table while the module is imported)"""
+        short = q_.split('.')[-1]
+        for om in prog.pkg_modules():
+            for g_ in om.funcs.values():
+                for c_ in ast.walk(g_):
+                    if isinstance(c_, ast.Call) and (call_name(c_) or ''
+                                                     ).split('.')[-1] == short:
+                        return False
+        return any(isinstance(c_, ast.Call) and (call_name(c_) or '').split(
+            '.')[-1] == short for st_ in m.tree.body
+            if not isinstance(st_, (ast.FunctionDef, ast.ClassDef))
+            for c_ in ast.walk(st_))
+
     def written(name):
         for q_, f_ in m.funcs.items():
+            if import_time_only(q_):
+                continue
             for x in ast.walk(f_):
                 if isinstance(x, (ast.Assign, ast.AugAssign, ast.Delete)):
                     tg = x.targets if isinstance(
@@ -1625,7 +1647,11 @@ def rule_r6(chk, prog):
         v = tables[name]
         nonempty = (isinstance(v, ast.Dict) and v.keys) or (
             isinstance(v, (ast.Set, ast.List)) and v.elts)
-        if nonempty and not written(name):
+        filled_at_import = any(
+            import_time_only(q_) and any(
+                isinstance(x, ast.Name) and x.id == name
+                for x in ast.walk(f_)) for q_, f_ in m.funcs.items())
+        if (nonempty or filled_at_import) and not written(name):
             chk.info('C16.R6', f'{name} is a constant table (never written)')
             del tables[name]
     chk.floor('C16.R6', 'module-level tables', len(tables), 9)
